@@ -333,9 +333,9 @@ inductive DeltaRes
   deriving Repr, DecidableEq
 
 /-- what `File::resolve_deltas` does with one delta on top of a full base object: two header
-sizes, then `apply(&base[..base_size], &mut target[..result_size], rest)`. (When both declared
-sizes are 0 the buffer juggling in `resolve_deltas` slices out of range before `apply` is reached —
-a quirk of that function, outside this property: git never writes an empty-to-empty delta.) -/
+sizes, then `apply(&base[..base_size], &mut target[..result_size], rest)`. (Until /repo commit
+a28439df2 the buffer juggling in `resolve_deltas` sliced out of range when both declared sizes were
+0; found by this property's harness, see known-findings.txt.) -/
 def applyDelta (base delta : Bytes) : DeltaRes :=
   match decodeHeaderSize delta with
   | .panic => .panic
@@ -344,7 +344,6 @@ def applyDelta (base delta : Bytes) : DeltaRes :=
     | .panic => .panic
     | .ok (resultSize, o2) =>
       if baseSize ≠ base.length then .outside
-      else if baseSize = 0 ∧ resultSize = 0 then .panic   -- resolve_deltas: `&buffers[delta_range]` with empty buffers
       else match apply (base.take baseSize) resultSize (delta.drop (o1 + o2)) with
         | some t => .ok t
         | none => .panic
